@@ -64,12 +64,13 @@ enum Variant
   V_CV_ARRAY_REF,
   V_CV_BUFADDR_VOL,
   V_CV_STRUCT_VALUE,
+  V_CV_STRUCT_VALUE_GENERIC,
   V_COUNT
 };
 static const char* kVar[] = { "string_uptr",   "string_std",  "string_uptr_from_cell", "string_std_from_cell", "range_char",   "range_short",
                               "range_int",     "range_ll",    "range_double",          "range_int_from_cell",  "cv_ptr_prim",  "cv_ptr_prim_from_cell",
                               "cv_fund_in_cell", "cv_struct", "cv_array_field",        "cv_address_from_cell", "cv_buffer_address", "deny_access_copy",
-                              "string_const_uptr", "string_const_uptr_from_cell", "cv_array_field_by_reference", "cv_buffer_address_from_cell", "cv_struct_by_value" };
+                              "string_const_uptr", "string_const_uptr_from_cell", "cv_array_field_by_reference", "cv_buffer_address_from_cell", "cv_struct_by_value", "cv_struct_by_value_generic_verifier" };
 static_assert(sizeof(kVar) / sizeof(kVar[0]) == V_COUNT);
 
 enum Mut
@@ -106,6 +107,7 @@ static size_t elem_size(int v)
       return 8;
     case V_CV_STRUCT:
     case V_CV_STRUCT_VALUE:
+    case V_CV_STRUCT_VALUE_GENERIC:
     case V_CV_ARRAY:
     case V_CV_ARRAY_REF:
     case V_CV_FUND_VOL:
@@ -124,7 +126,7 @@ static bool uses_cell(int v)
 }
 static bool single_object(int v)
 {
-  return v == V_CV_PRIM || v == V_CV_PRIM_VOL || v == V_CV_FUND_VOL || v == V_CV_STRUCT || v == V_CV_STRUCT_VALUE || v == V_CV_ARRAY || v == V_CV_ARRAY_REF || v == V_CV_ADDR_VOL;
+  return v == V_CV_PRIM || v == V_CV_PRIM_VOL || v == V_CV_FUND_VOL || v == V_CV_STRUCT || v == V_CV_STRUCT_VALUE || v == V_CV_STRUCT_VALUE_GENERIC || v == V_CV_ARRAY || v == V_CV_ARRAY_REF || v == V_CV_ADDR_VOL;
 }
 
 // length of a string handed over in a heap block of its own: never reads beyond the block
@@ -545,6 +547,17 @@ struct ToctouWorld : World
           node_value_set = true;
           break;
         }
+        case V_CV_STRUCT_VALUE_GENERIC:
+          // the verifier is a generic callable taking its argument by reference: whatever it is bound to must be a copy
+          node_value = (*pA((SimNode*)0)).copy_and_verify([&](const auto& v) {
+            verifier_saw(std::addressof(v), sizeof v);
+            SimNode r{};
+            r.tag = v.tag.UNSAFE_unverified();
+            r.big = v.big.UNSAFE_unverified();
+            return r;
+          });
+          node_value_set = true;
+          break;
         case V_CV_ARRAY_REF:
           // the verifier takes the array by reference: what it is handed must still be an application-side copy
           arr = pA((SimNode*)0)->name.copy_and_verify([&](const std::array<char, 8>& a) {
@@ -766,7 +779,7 @@ struct ToctouWorld : World
         if (!c.stop && (!ptr_ok((uintptr_t)t->data.UNSAFE_unverified(), offsetof(GNode, data)) || !ptr_ok((uintptr_t)t->next.UNSAFE_unverified(), offsetof(GNode, next)) ||
                         !ptr_ok((uintptr_t)t->ptrs[1].UNSAFE_unverified(), offsetof(GNode, ptrs) + 4)))
           c.violate("C09", cls("delivered_pointer_field_never_in_source"), "a pointer field of the struct snapshot is outside the sandbox or was never designated by the source");
-      } else if (variant == V_CV_STRUCT_VALUE) {
+      } else if (variant == V_CV_STRUCT_VALUE || variant == V_CV_STRUCT_VALUE_GENERIC) {
         // handled below (nothing is kept by address)
       } else if (variant == V_CV_FUND_VOL) {
         bool ok = false;
@@ -788,7 +801,7 @@ struct ToctouWorld : World
         }
       }
       // fault-free: exact content
-      if (fault_free && !c.stop && variant != V_CV_STRUCT && variant != V_CV_STRUCT_VALUE) {
+      if (fault_free && !c.stop && variant != V_CV_STRUCT && variant != V_CV_STRUCT_VALUE && variant != V_CV_STRUCT_VALUE_GENERIC) {
         const uint8_t* src = &versions[0][offA + (variant == V_CV_ARRAY || variant == V_CV_ARRAY_REF ? offsetof(GNode, name) : 0)];
         size_t n = is_string(variant) ? kept_n - 1 : kept.size();
         if (is_string(variant) && n != lenA)
@@ -812,7 +825,7 @@ struct ToctouWorld : World
         // the address that was handed over is not the one whose extent was checked
         c.violate("C09", cls("buffer_address_handed_over_without_its_checked_extent"), "%u elements from offset %lld do not fit the region", lenA, (long long)(addr_val - base));
     }
-    if (variant == V_CV_STRUCT_VALUE && o == OK && node_value_set && !c.stop) {
+    if ((variant == V_CV_STRUCT_VALUE || variant == V_CV_STRUCT_VALUE_GENERIC) && o == OK && node_value_set && !c.stop) {
       // a field-by-field copy of memory the guest keeps writing is not an atomic snapshot (and the statement does not
       // ask for one): every field, on its own, must have been in the source at some moment
       bool tag_ok = false, big_ok = false;
